@@ -360,6 +360,12 @@ func (maps *trackedMaps) processUnfiltered(ctx context.Context, ef *Filter, filt
 	return nil
 }
 
+// unescapePointerSegment turns a pointerstructure (JSON pointer) path segment into
+// the map key it names: "~1" stands for "/" and "~0" for "~", decoded in that order.
+func unescapePointerSegment(seg string) string {
+	return strings.ReplaceAll(strings.ReplaceAll(seg, "~1", "/"), "~0", "~")
+}
+
 func (maps *trackedMaps) trackTaggable(taggable Taggable, pointer string) error {
 	const (
 		op            = "encrypt.(trackedMaps).trackTaggable"
@@ -407,7 +413,7 @@ func (maps *trackedMaps) trackTaggable(taggable Taggable, pointer string) error 
 		if !ok {
 			return fmt.Errorf("%s: unable to get tracked map", op)
 		}
-		tm.markFieldFiltered(segs[len(segs)-1])
+		tm.markFieldFiltered(unescapePointerSegment(segs[len(segs)-1]))
 
 	default:
 		// default is a map that we need to go get via the pointer
@@ -434,7 +440,7 @@ func (maps *trackedMaps) trackTaggable(taggable Taggable, pointer string) error 
 		if !ok {
 			return fmt.Errorf("%s: unable to get tracked map", op)
 		}
-		tm.markFieldFiltered(segs[len(segs)-1])
+		tm.markFieldFiltered(unescapePointerSegment(segs[len(segs)-1]))
 	}
 	return nil
 }
